@@ -237,7 +237,7 @@ def run_shard(desc, ctx):
             props = []
             for _ in range(rng.randint(1, 3)):
                 key = rng.choice(list(G.PROPS))
-                vals = [G.num_value(rng) if rng.random() < 0.7 else G.color_value(rng) for _ in range(rng.randint(1, 6))]
+                vals = [G.num_value(rng) if rng.random() < 0.7 else G.color_value(rng) for _ in range(rng.randint(1, 6) if rng.random() < 0.9 else rng.randint(7, 14))]
                 props.append((key, vals, rng.random() < 0.2))
             opts = rng.choice(optpool)
             mon.check(props, rng.choice(list(SYNTAX_FMT)), opts, 'random')
